@@ -305,7 +305,7 @@ pub fn gen(tier: Tier, rng: &mut Rng64, out: &mut Out) {
         for (li, vars) in lists.iter().enumerate() {
             let len = vars.len();
             let mut ks: Vec<usize> = vec![len.saturating_sub(1), len, len + 1, 255, 256, 257];
-            let heavy = thorough || len <= 3 || li % 3 == 1;
+            let heavy = thorough || len <= 2 || (li % 3 == 1 && len % 2 == 0);
             if heavy { ks.extend([65534, 65535, 65536, 65537, 65536 + len]); } else { ks.extend([65535, 65536]); }
             if thorough || len <= 2 || li == lists.len() - 3 { ks.push(1 << 17); }
             if thorough || len <= 1 { ks.push(1 << 20); }
@@ -330,6 +330,8 @@ pub fn gen(tier: Tier, rng: &mut Rng64, out: &mut Out) {
         let ks20: Vec<usize> = if thorough { vec![19, 20, 21, 255, 256, 257, 65535, 65536, 65537] } else { vec![19, 20, 21, 255, 256, 257, 65536] };
         for k in ks20 {
             for key in ["C16.exactly", "C16.upto"] {
+                // 65 536 rounds over 20 variables take about 4 s in the unmodified code: quick runs them for one constructor
+                if !thorough && k >= 65536 && key == "C16.upto" { continue; }
                 let key = if k >= 1000 { format!("{}B", key) } else { s(key) };
                 run(&key, &[s("20"), k.to_string(), fmt_usizes(&vars20)], out);
             }
